@@ -75,9 +75,12 @@ type Contract struct {
 	Extern     bool
 	NoBody     bool // contract is used at call sites only (body not verified)
 	Assumes    []Clause // assumed at entry, listed as assumptions (API-boundary facts)
+	EnsuresLocal []Clause // proved on the body, not exported to callers (may mention ghosts and events)
 	EnsuresAssumed []Clause // postconditions used at call sites but NOT proved on the body (listed as assumptions)
 	Fresh      bool // result is a fresh object (extern)
 	LockChans  []string
+	Shutdown   []string // channel subjects one of which every blocking select must receive from
+	MayBlock   []string // blocking operations outside a select that are accepted (each listed in evidence)
 	Callsback  []string // extern: the callee acts only through these methods of its first argument
 }
 
@@ -96,16 +99,24 @@ type Axiom struct {
 	Vars []string // universally quantified int vars
 }
 
+type GInv struct {
+	Vars []string
+	Cl   Clause
+}
+
 type SpecDB struct {
 	Contracts map[string]*Contract // key: pkgpath + "::" + funcKey
 	Funcs     map[string]*SpecFunc
 	Axioms    []Axiom
 	Files     []string
 	LockChans map[string]bool // "pkgpath.Type.field" channel used as a lock
+	Protects  map[string]string // "pkgpath.Type.field" -> mutex field of the same struct that must be held
+	GInv      map[string][]GInv   // pkgpath -> invariants over package-level variables (established by init, no other writers)
+	NonNil    map[string][]string // pkgpath -> package-level variables initialised non-nil and never reassigned
 }
 
 func newSpecDB() *SpecDB {
-	db := &SpecDB{Contracts: map[string]*Contract{}, Funcs: map[string]*SpecFunc{}, LockChans: map[string]bool{}}
+	db := &SpecDB{Contracts: map[string]*Contract{}, Funcs: map[string]*SpecFunc{}, LockChans: map[string]bool{}, Protects: map[string]string{}, NonNil: map[string][]string{}, GInv: map[string][]GInv{}}
 	if err := db.loadText(builtinSpec, "builtin:bytes", "", true); err != nil {
 		panic(err)
 	}
@@ -437,6 +448,34 @@ func (db *SpecDB) loadText(data, path, pkgPath string, extern bool) error {
 			}
 			db.Axioms = append(db.Axioms, ax)
 			cur = nil
+		case strings.HasPrefix(line, "protects "):
+			// protects Type.mutexField: f1, f2
+			rest := strings.TrimSpace(strings.TrimPrefix(line, "protects "))
+			parts := strings.SplitN(rest, ":", 2)
+			tm := strings.SplitN(strings.TrimSpace(parts[0]), ".", 2)
+			if len(parts) != 2 || len(tm) != 2 {
+				return fmt.Errorf("%s:%d: bad protects clause", path, ln)
+			}
+			for _, f := range strings.Split(parts[1], ",") {
+				db.Protects[pkgPath+"."+tm[0]+"."+strings.TrimSpace(f)] = tm[1]
+			}
+			cur = nil
+		case strings.HasPrefix(line, "ginv "):
+			// ginv [v1 v2 ...]: expr   — invariant over package-level variables
+			rest := strings.TrimSpace(strings.TrimPrefix(line, "ginv "))
+			if !strings.HasPrefix(rest, "[") || !strings.Contains(rest, "]:") {
+				return fmt.Errorf("%s:%d: bad ginv clause", path, ln)
+			}
+			k := strings.Index(rest, "]:")
+			cl, err := mk(rest[k+2:], ln)
+			if err != nil {
+				return err
+			}
+			db.GInv[pkgPath] = append(db.GInv[pkgPath], GInv{Vars: strings.Fields(rest[1:k]), Cl: cl})
+			cur = nil
+		case strings.HasPrefix(line, "nonnil "):
+			db.NonNil[pkgPath] = append(db.NonNil[pkgPath], strings.Fields(strings.TrimPrefix(line, "nonnil "))...)
+			cur = nil
 		case strings.HasPrefix(line, "lockchan "):
 			db.LockChans[pkgPath+"."+strings.TrimSpace(strings.TrimPrefix(line, "lockchan "))] = true
 		default:
@@ -449,7 +488,7 @@ func (db *SpecDB) loadText(data, path, pkgPath string, extern bool) error {
 				word, rest = line[:k], strings.TrimSpace(line[k+1:])
 			}
 			switch word {
-			case "requires", "ensures", "assumes", "ensures-assumed":
+			case "requires", "ensures", "assumes", "ensures-assumed", "ensures-local":
 				cl, err := mk(rest, ln)
 				if err != nil {
 					return err
@@ -461,6 +500,8 @@ func (db *SpecDB) loadText(data, path, pkgPath string, extern bool) error {
 					cur.Ensures = append(cur.Ensures, cl)
 				case "ensures-assumed":
 					cur.EnsuresAssumed = append(cur.EnsuresAssumed, cl)
+				case "ensures-local":
+					cur.EnsuresLocal = append(cur.EnsuresLocal, cl)
 				default:
 					cur.Assumes = append(cur.Assumes, cl)
 				}
@@ -480,6 +521,10 @@ func (db *SpecDB) loadText(data, path, pkgPath string, extern bool) error {
 				cur.Props = append(cur.Props, strings.Fields(rest)...)
 			case "inline":
 				cur.Inline = true
+			case "shutdown":
+				cur.Shutdown = append(cur.Shutdown, strings.Fields(rest)...)
+			case "mayblock":
+				cur.MayBlock = append(cur.MayBlock, strings.Fields(rest)...)
 			case "callsback":
 				cur.Callsback = append(cur.Callsback, strings.Fields(rest)...)
 			case "maypanic":
